@@ -528,6 +528,15 @@ func transparency(k *run.K) {
 	gg := &gen.G{R: k.Rng, Cfg: gen.NewCfg(k.Rng, domain)}
 	g := gg.Typed(gen.AllTypes[k.Rng.Intn(7)], 1)
 	other := gg.Any(1)
+	// half of the cases put a control point of each operand exactly at the origin (the XY of an empty
+	// Point's zero payload); the translation is an exact integer one on this domain
+	if k.Rng.Bool() {
+		g = shared.AnchorAtOrigin(k.Rng, g)
+		if k.Rng.Bool() {
+			other = shared.AnchorAtOrigin(k.Rng, other)
+		}
+		k.Count("origin_anchored", 1)
+	}
 	h, vars := insertions(k.Rng, g)
 	k.In("h", shared.WKT(h))
 	k.In("other", shared.WKT(other))
